@@ -7,7 +7,7 @@ namespace verif {
 const char *propId() { return "C01"; }
 
 namespace {
-bool judge(const CircuitSpec &s, const ColoquinteParameters &params, Report &R, bool record);
+bool judge(const CircuitSpec &s, const ColoquinteParameters &params, Report &R, bool record, const Circuit *prepared = nullptr);
 }
 
 bool prop(Tape &t, Report &R) {
@@ -51,12 +51,24 @@ bool prop(Tape &t, Report &R) {
       if (!judge(big, params, R, true)) return false;
     }
   }
+  // object history (decided after everything else): the same contents on a Circuit object that
+  // was legalized before with its fixed cells elsewhere and then modified through its setters
+  uint32_t hw = t.next();
+  if (hw % 3 == 1) {
+    std::string route;
+    Circuit h = buildWithHistory(s, hw, [&](Circuit &c) { c.legalize(params); }, &route);
+    R.classify("history:legalize," + route + ",legalize");
+    if (!judge(s, params, R, true, &h)) {
+      R.failReason = "on a circuit object legalized before with its fixed cells elsewhere, then set to these contents with " + route + ": " + R.failReason;
+      return false;
+    }
+  }
   return true;
 }
 
 namespace {
-bool judge(const CircuitSpec &s, const ColoquinteParameters &params, Report &R, bool record) {
-  Circuit c = s.build();
+bool judge(const CircuitSpec &s, const ColoquinteParameters &params, Report &R, bool record, const Circuit *prepared) {
+  Circuit c = prepared ? *prepared : s.build();
   Frame before = snap(c);
 
   // trivial feasibility (C01, last clause), from the spec alone
